@@ -37,6 +37,31 @@ CHECKS["C11"] = (
     "h*(1-2^-k), h/2 and neighbours; every other registered term class must refuse.",
     "y restricted to [h*2^-40, h*(1-2^-40)] (overflow of the exact inverse is a representation limit).", "§5 C11")
 
+CHECKS["C06"] = (
+    "Hypothesis-generated antecedent expression trees printed to rule text vs reference evaluation of the tree + structural postfix oracle",
+    "Generated antecedent ASTs (depth<=4, 0-3 hedges, any, input and output variables, disabled variables, minimal or "
+    "redundant parentheses, tight or spaced) are printed to text; the loaded rule's activation degree must equal the "
+    "reference evaluation of the AST under the documented grammar for every (conjunction, disjunction) pair (all 63 "
+    "visited), weights, scalar and batch inputs; Antecedent.postfix() must equal the AST's post-order print.",
+    "Leaf memberships are taken from fresh term objects (C03 decides those); discontinuous-operator decisions within "
+    "1e-9 of their branch point on computed operands are counted as fragile.", "§5 C06")
+CHECKS["C07"] = (
+    "Hypothesis-generated consequents/degrees vs a model of Rule.trigger + permutation metamorphic relation",
+    "Generated rules with 1-3 conclusions over 1-3 output variables, 0-2 hedges each, enabled flags, all implication "
+    "operators, degrees given directly (scalar/batch incl. 0,1,NaN,+-inf) or via a real antecedent: one Activated per "
+    "conclusion on an enabled variable, concluded term object, block implication, own-hedges-only degree; every "
+    "permutation of the conclusions yields the same multiset.",
+    "Open known finding KF-C07-hedge-leak is matched by an exact cumulative-hedge model; anything else is reported.",
+    "§5 C07")
+CHECKS["C08"] = (
+    "exhaustive enumeration of small degree vectors x all activation configurations + Hypothesis vectors vs reference selection",
+    "Exhaustive over {0,1/4,1/2,3/4,1}^n (n<=4 quick, n<=5 thorough) x all 7 methods x all parameters (n_rules 0..n+1, "
+    "5 thresholds, 6 comparators), plus Hypothesis-generated blocks of 1-8 rules with arbitrary doubles, ties, shared "
+    "inputs, disabled/unloaded rules, weights; batches must be rejected by every method but General without any "
+    "contribution. Degrees are realised exactly through Ramp(0,1) terms.",
+    "Whether a disabled rule occupies a slot of First/Last/Highest/Lowest is not asserted (both readings accepted).",
+    "§5 C08")
+
 NOT_APPLICABLE = {}
 
 
